@@ -148,7 +148,7 @@ class SymCtx(BaseCtx):
                 (m, c), = x.p.items()
                 if c == 1 and len(m) == 1 and m[0][1] == 1:
                     keys[m] = k
-        ok = True
+        ok = expr.q is None
         for m, c in expr.p.items():
             k = keys.get(m)
             if k is None or abs(c) > S.to_frac(weights[k]):
@@ -461,7 +461,7 @@ def run_obligation(prop, ob_dict, known):
         eng.explore(body, on_path)
         # reachability twin: at least one completed path whose path condition is satisfiable
         res['reach'] = res['paths']
-        if res['paths'] == 0:
+        if res['paths'] == 0 and not split:
             res['status'] = 'vacuous'
         res['stats'] = eng.stats.as_dict()
     except Exception as e:   # SymUnsupported, Budget, engine bugs
